@@ -325,6 +325,11 @@ type world struct {
 	// down makes every dial fail.
 	down bool
 
+	// chunk, if positive, is the size of the pieces in which answers are
+	// written to the connection (so that a download takes several reads and
+	// therefore several writes to the temporary file).
+	chunk int
+
 	// requested counts the connection attempts per position in this round.
 	requested map[string]int
 
@@ -386,8 +391,15 @@ func (w *world) serve(c net.Conn, pos string, v int, kind string) {
 	}
 
 	raw, stall := rawResponse(pos, req.URL.Path, v, kind)
-	if len(raw) > 0 {
-		_, _ = c.Write(raw)
+	for len(raw) > 0 {
+		n := len(raw)
+		if w.chunk > 0 && n > w.chunk {
+			n = w.chunk
+		}
+		if _, err = c.Write(raw[:n]); err != nil {
+			break
+		}
+		raw = raw[n:]
 	}
 	if stall {
 		// Hold the connection until the client gives up.
